@@ -529,6 +529,12 @@ def fsms(tier):
     for s_ in sels:
         for i_ in inner:
             out.append(('selection', s_, i_))
+    # nested selections: the inner file-matcher is only applied to files the outer selection lets through (it may be undefined for the others:
+    # `contents` of a directory, `dir-contents` of a regular file are hard errors)
+    for i_ in inner[:4] + [('num', '==', 0), ('num', '==', 2)]:
+        out.append(('selection', ('type', 'file'), ('selection', ('contents-empty',), i_)))
+        out.append(('selection', ('type', 'dir'), ('selection', ('dir-contents', {}, ('empty',)), i_)))
+        out.append(('selection', ('type', 'file'), ('selection', ('name', G('a*')), ('selection', ('contents-empty',), i_))))
     prunes = [('name', G('d')), ('name', G('e')), ('const', True), ('type', 'symlink'), ('name', G('b'))]
     for p in prunes:
         for i_ in inner + [('num', '==', 3), ('any', ('name', G('b.txt')))]:
